@@ -57,7 +57,11 @@ def make_cases(rng, tier, n):
                     ops.append(("rmobj", rng.randrange(100)))
             else:
                 ops.append(("wipecache",))
-            ops += [("fetch", single, tg), ("clone", keep), ("checkout", rng.choice("lc"), single, tg), ("status", tg)]
+            if i % 5 == 3:
+                # `dud pull` = fetch + checkout in one command, with the same (explicit or absent) arguments
+                ops += [("clone", keep), ("pull", rng.choice("lc"), single, tg if tg else ([rng.choice(names)] if rng.random() < 0.5 else [])), ("status", tg)]
+            else:
+                ops += [("fetch", single, tg), ("clone", keep), ("checkout", rng.choice("lc"), single, tg), ("status", tg)]
         c["ops"] = ops
         c["flow"] = flow
         stats["flow_" + flow] = stats.get("flow_" + flow, 0) + 1
